@@ -164,7 +164,9 @@ PROPS = {
         TAL_BASIC + S_TALES + S_INTERP + [K("k3::S-OnError-keep"), K("k3::S-I18nTarget"),
                                             K("k3::S-UseExternal"), K("k3::S-MacroUseInternal"),
                                             K("k3::S-MacroUseInternal-after-expr"),
-                                            K("template.py::BaseTemplate.render"), K("exc.py::ExceptionFormatter.__call__@records"), K("k3::S-Bom-positions"), K("tal.py::RepeatDict.__call__"),
+                                            K("template.py::BaseTemplate.render"), K("exc.py::ExceptionFormatter.__call__@records"), K("k3::S-Bom-positions"),
+                                            K("k3::S-CRLF-positions"), K("k3::S-OnError-static-body"),
+                                            U('bounded.units', 'errmsg', 'B-ERRMSG'), K("tal.py::RepeatDict.__call__"),
                                             K("utils.py::lookup_attr"),
                                             U('pyvc.frames', 'render_write_frame', 'render.write_frame')],
         ["create_formatted_exception itself (dynamic class creation; outside the subset)",
